@@ -4,6 +4,7 @@ pristine child, fetch baselines (each in its own pristine child), judge.
 The worker process (a "zygote") imports pycparser from the tree under test but
 never executes any of it, so every fork starts from import-time module state.
 """
+import copy
 import faulthandler
 import os
 import sys
@@ -88,12 +89,19 @@ def evaluate(spec):
         ops = spec["actors"][0]["ops"]
         bl = []
         for op, r in zip(ops, result["actors"][0]):
-            if not c12.compared(r):
+            if not r.get("out") or r["out"]["k"] in ("abort", "hang"):
                 bl.append(None)
                 continue
-            b = baseline(c12.op_key(op), c12.baseline_spec(op))
+            bs = c12.baseline_spec(op)
+            key = c12.op_key(op)
+            if spec.get("recursion_delta"):
+                bs["recursion_delta"] = spec["recursion_delta"]
+                key += ":rd%d" % spec["recursion_delta"]
+            b = baseline(key, bs)
             bl.append(b["actors"][0][0])
         viols = c12.judge(spec, result, bl)
+        if not spec.get("recursion_delta"):
+            viols += _recursion_recheck(spec, c12.rec_mismatches(spec, result, bl), "history:recursion")
         return viols, result, {"baselines": bl}
     elif prop == "C13":
         solos = []
@@ -111,8 +119,41 @@ def evaluate(spec):
         spec["max_steps"] = 20 * sum(s["steps"] for s in solos) + 200_000
         result = run_spec(spec)
         viols = c13.judge(spec, result, solos)
+        if not spec.get("recursion_delta"):
+            viols += _recursion_recheck(spec, c13.rec_mismatches(spec, result, solos), "diverge:recursion")
         return viols, result, {"solos": solos}
     raise HarnessError("unknown property %r" % prop)
+
+
+REC_DELTAS = (48, -48)
+
+
+def _recursion_recheck(spec, mism, kind):
+    """RecursionError-vs-completed differences are normally not compared: where
+    exactly the limit bites depends on a handful of harness frames that sit on
+    top of the parser's stack at yield points.  A difference is believed only if
+    it is *robust*: the same operation is 'rec' on the same side when the whole
+    comparison is repeated with every recursion limit shifted by +48 and by -48
+    frames (a difference caused by a few harness frames cannot survive both)."""
+    if not mism:
+        return []
+    robust = set(mism)
+    for delta in REC_DELTAS:
+        s2 = copy.deepcopy(spec)
+        s2["recursion_delta"] = delta
+        s2.pop("max_steps", None)
+        if s2.get("schedule") is None:
+            s2.pop("est_steps", None)
+        _, result2, info2 = evaluate(s2)
+        mod = c12 if spec["property"] == "C12" else c13
+        ref = info2["baselines"] if spec["property"] == "C12" else info2["solos"]
+        robust &= set(mod.rec_mismatches(s2, result2, ref))
+        if not robust:
+            return []
+    out = []
+    for (actor, op, side) in sorted(robust):
+        out.append({"kind": kind, "actor": actor, "op": op, "detail": "RecursionError on one side only (%s), stable when all recursion limits are shifted by +48 and -48 frames" % side})
+    return out
 
 
 def one_run(task):
